@@ -146,6 +146,9 @@ NEAR_EXEMPT = [("POST", "/vmAgentLog"), ("GET", "/machine/?comp=telemetrydata"),
 
 
 _BIG = {"left": 3}
+# the record's is-admin field is 1 for an elevated caller; every other value (0 on Linux; a negative error code or another
+# number from another producer of records) means "not elevated" to the authorizer AND in the claims the host is told
+NOT_ELEVATED = [0, 0, 0, 0, 2, -1, -22]
 
 
 def concretize(case, rnd, n, harness_exe, thorough, session=None):
@@ -244,7 +247,7 @@ def concretize(case, rnd, n, harness_exe, thorough, session=None):
     attr = None
     if own["has"]:
         dip, dport = rig.DEST[dest]
-        attr = {"uid": uid, "admin": 1 if own["elevated"] else 0, "dip": dip, "dport": dport}
+        attr = {"uid": uid, "admin": 1 if own["elevated"] else rnd.choice(NOT_ELEVATED), "dip": dip, "dport": dport}
     if not session:
         steps.append({"op": "connect", "conn": cid, "attr": attr})
     host_status = rnd.choice([200, 200, 201, 404, 500])
@@ -525,7 +528,7 @@ def pipeline(c):
         attr = None
         if own["has"]:
             dip, dport = rig.DEST[own["dest"]]
-            attr = {"uid": uid, "admin": 1 if own["elevated"] else 0, "dip": dip, "dport": dport}
+            attr = {"uid": uid, "admin": 1 if own["elevated"] else rnd.choice(NOT_ELEVATED), "dip": dip, "dport": dport}
         ssteps, smetas, first = [], [], True
         upstream = "open"
         for j, k in enumerate(seq):
